@@ -370,6 +370,22 @@ def check(an: Analysis) -> None:
                 ob.fail(cgi, lk.ast, "with a cached specialisation present something else is returned")
             if not hit and not built:
                 ob.fail(cgi, lk.ast, "without a cached specialisation no class is built")
+            if not hit and built:
+                # ... and what was built is remembered under the same key: Box[int] must be one class object however often it is
+                # written (isinstance / equality between instances of equal specialisations rely on it)
+                cache_name = lk.ast.func.value.id  # type: ignore[union-attr]
+                cstores = [n for n in gcg.nodes if n.kind == "stmt" and isinstance(n.ast, ast.Assign) and any(isinstance(t, ast.Subscript) and is_name(t.value, cache_name) for t in n.ast.targets)]
+                live_rets = [n for n in gcg.nodes if n.kind == "return" and n.id in scg.reach]
+                if not cstores:
+                    ob.fail(cgi, lk.ast, "a freshly built specialisation is never stored in the cache: every `Box[int]` is a different class (instances of equal specialisations are unrelated: isinstance and == between them fail)")
+                else:
+                    w_ = gcg.must_pass(lambda n: n in cstores, starts=built, exits=("exit-return",), skip_edge=both_(scg.skip, normal_only))
+                    if w_ is not None:
+                        ob.fail(cgi, cstores[0].ast, "a path returns a freshly built specialisation without storing it in the cache", CFG.show_path(w_))
+                    for st_ in cstores:
+                        key_ = st_.ast.targets[0].slice  # type: ignore[union-attr]
+                        if not ({"param:cls", f"param:{arg_p}"} <= dcg.of(key_)):
+                            ob.fail(cgi, st_.ast, "the specialisation is stored under a key that lacks the class or the type arguments")
     smn = prog.fn("state.structure.StateMeta.__new__")
     dsm = Deps(prog, smn)
     aa = [c for c in smn.own_nodes() if isinstance(c, ast.Call) and an.callee(smn, c) == prog.fn("state.attributes.attribute_annotations").qualname]
